@@ -65,11 +65,33 @@ where
         self.consumed = 0;
         self.remaining -= self.buffer.len();
 
-        if self.remaining == 0 && !buffers::read_line_ending(&mut self.inner)? {
-            return Err(InvalidResponseKind::Chunk.into());
+        if self.remaining == 0 {
+            if self.reached_eof {
+                self.skip_trailer_section()?;
+            } else if !buffers::read_line_ending(&mut self.inner)? {
+                return Err(InvalidResponseKind::Chunk.into());
+            }
         }
 
         Ok(())
+    }
+
+    /// The last chunk is followed by the trailer section: any number of field lines, which are not
+    /// made available and are skipped, and the empty line that ends the body.
+    fn skip_trailer_section(&mut self) -> io::Result<()> {
+        const MAX_TRAILER_FIELDS: usize = 100;
+        const MAX_TRAILER_LINE_LEN: u64 = 16 * 1024;
+
+        for _ in 0..=MAX_TRAILER_FIELDS {
+            // The buffer holds no chunk data at this point, the last chunk is empty.
+            buffers::read_line(&mut self.inner, &mut self.buffer, MAX_TRAILER_LINE_LEN)?;
+            if self.buffer.is_empty() {
+                return Ok(());
+            }
+        }
+
+        self.buffer.clear();
+        Err(InvalidResponseKind::Chunk.into())
     }
 }
 
